@@ -135,6 +135,18 @@ func directedHistories() []struct {
 				hr(1, 7, 25*s, both, false), hr(1, 8, 27*s, both, false), hr(1, 9, 29*s, both, false),
 			}})
 	}
+	// D5: configurations the offchain-config decoder must refuse (version 1 needs a minimum report interval >= 1;
+	// unknown versions); were they accepted, a channel would report an empty window in the round that adds it
+	for _, bad := range []instCfg{{F: 1, N: 4, PVer: 1, Interval: 0}, {F: 1, N: 4, PVer: 7, Interval: 3}, {F: 1, N: 4, PVer: 0, Interval: 5}} {
+		add("D5-config-must-be-refused", histIn{
+			Cfgs: []instCfg{bad},
+			Rounds: []roundIn{
+				roundOf(0, 1, 4, 0, nil),
+				roundOf(0, 2, 4, 1700000000*s, upd(1, jsonDef)),
+				roundOf(0, 3, 4, 1700000000*s, nil),
+				roundOf(0, 4, 4, 1700000001*s, nil),
+			}})
+	}
 	// B1: interval 2^64-1 and a repeated timestamp: validAfter == observation timestamp must NOT be reportable
 	add("B1-interval-overflow", histIn{
 		Cfgs: []instCfg{{F: 1, N: 4, PVer: 1, Interval: ^uint64(0)}},
